@@ -111,6 +111,7 @@ CmdHIncrByFloat(s, now, a) ==
   ELSE LET p == ParseDec(a[4]) IN
     IF WrongFor(s, a[2], "hash") THEN
       WithCorner(~p.ok \/ p.corner, One(RWrong, s, "hincrbyfloat.wrongtype"), s, "hincrbyfloat.wrongtype_alt")
+    ELSE IF Len(a[4]) > 15 \/ (a[3] \in DOMAIN HashOf(s, a[2]) /\ Len(HashOf(s, a[2])[a[3]]) > 15) THEN One(RAny, s, "hincrbyfloat.unmodelled_precision")
     ELSE IF ~p.ok THEN One(RErr, s, "hincrbyfloat.argnotfloat")
     ELSE LET f == HashOf(s, a[2])
              cur == IF a[3] \in DOMAIN f THEN ParseDec(f[a[3]]) ELSE ParseDec(L_zero)
